@@ -44,6 +44,18 @@ CLAIMED = {
         technique="symbolic evaluation of static initialisers (syn) against an oracle table, decided by computer algebra",
         design_ref="DESIGN.md section 4 C14",
     ),
+    "C17": dict(
+        level="other",
+        text="Completeness of the substitution decided structurally: the qubit-substitution match in the gate arm of expand_inner and Instruction::apply_to_expressions must name, in an explicit arm binding the relevant fields, every body-capable Instruction variant whose payload holds a Qubit / Expression (type-directed coverage); the measurement arm must read measurement.qubit and .target; its two sibling target rewrites must both be guarded (contradiction check); the instructions appended in recursively_expand_inner are the same on both sides of every build_source_map test; every expanded instruction re-enters expand_inner. Five confirmed defects are recorded as known findings. Correctness of the substituted values beyond dependence is not decided.",
+        technique="type-directed coverage of HIR match patterns x ADT field types; dependence and sibling-contradiction checks over MIR",
+        design_ref="DESIGN.md section 4 C17",
+    ),
+    "C18": dict(
+        level="other",
+        text="Guard dominance on the recursion cycle of calibration expansion: every recursive call in expand_inner is dominated by the non-member side of the breadcrumb membership test whose member side returns RecursiveCalibration; the trail passed down is built from the current instruction and the received trail; and the guard key type must not contain a type (Expression) that the expansion step itself creates new values of - it does, which is the recorded known finding (parameter-growing calibrations overflow the stack). Panics other than stack exhaustion are not decided here.",
+        technique="SCC of the monomorphic call graph + MIR dominators + type-containment finiteness argument",
+        design_ref="DESIGN.md section 4 C18",
+    ),
     "C28": dict(
         level="other",
         text="Classification totality of the CFG builder over every body-capable Instruction variant (no catch-all, none skipped except INCLUDE), terminator tables forward and inverse, is_dynamic = ConditionalJump, and dependence of every block-offset increment on the closed block's instruction count and label presence. Decides these structural necessary conditions for all programs; the offset arithmetic itself is not evaluated.",
